@@ -186,3 +186,66 @@ Proof.
   destruct v; try contradiction. cbn [agree] in H. subst. exists x. split; [reflexivity | exact Hq].
 Qed.
 Print Assumptions translated_isoelectric_point_never_raises.
+
+(* ---------- the public getters (SequenceParameters) are exactly a return of the backend call with their own arguments ---------- *)
+Lemma fw_get_isoelectric_point : g_fw_get_isoelectric_point = SReturn (ECall "SeqObj.isoelectric_point"%string []). Proof. reflexivity. Qed.
+
+(* ---------- the pH-taking getters: range check, then the backend call ---------- *)
+Definition fw_ph_shape (m : string) : stmt :=
+  SSeq (SIf (ENe (EVar "pH") (EConst VNone)) (SAssign "$_" (ECall "__verify_pH" [EVar "pH"])) SSkip)
+       (SReturn (ECall m [EVar "pH"])).
+Lemma fw_get_FCR : g_fw_get_FCR = fw_ph_shape "SeqObj.FCR". Proof. reflexivity. Qed.
+Lemma fw_get_NCPR : g_fw_get_NCPR = fw_ph_shape "SeqObj.NCPR". Proof. reflexivity. Qed.
+Lemma fw_get_mean_net_charge : g_fw_get_mean_net_charge = fw_ph_shape "SeqObj.mean_net_charge". Proof. reflexivity. Qed.
+Lemma fw_get_fraction_expanding : g_fw_get_fraction_expanding = fw_ph_shape "SeqObj.FER". Proof. reflexivity. Qed.
+
+Section PHGetters.
+Variable backend : string -> list value -> value.      (* the backend methods: oracles here *)
+Definition ph_prim (name : string) (args : list value) : value :=
+  if String.eqb name "__verify_pH" then
+    match args with
+    | [v] => match MiniPy.exec noprim 0 g_verify_pH [("pH"%string, v)] with ONorm _ => VNone | ORaise => VExc | _ => VErr end
+    | _ => VErr
+    end
+  else backend name args.
+
+(* __verify_pH on any rational pH: an exception exactly outside [0, 14] *)
+Lemma verify_pH_tie (ph : Q) : MiniPy.exec noprim 0 g_verify_pH [("pH"%string, VQ ph)] =
+  if Qltb ph 0 || Qltb 14 ph then ORaise else ONorm [("pH"%string, VQ ph)].
+Proof.
+  unfold g_verify_pH. set (r := [("pH"%string, VQ ph)]).
+  assert (T1 : truthy (MiniPy.eval noprim (ELt (EVar "pH") (EConst (VQ (0 # 1)))) r) = VBool (Qltb ph 0)) by reflexivity.
+  assert (T2 : truthy (MiniPy.eval noprim (EGt (EVar "pH") (EConst (VQ (14 # 1)))) r) = VBool (Qltb 14 ph)) by reflexivity.
+  rewrite exec_seq. destruct (Qltb ph 0).
+  - rewrite (exec_if_true _ _ _ _ T1). reflexivity.
+  - rewrite (exec_if_false _ _ _ _ T1). change (MiniPy.exec noprim 0 SSkip r) with (ONorm r). cbv beta iota. cbn [orb]. destruct (Qltb 14 ph).
+    + rewrite (exec_if_true _ _ _ _ T2). reflexivity.
+    + rewrite (exec_if_false _ _ _ _ T2). reflexivity.
+Qed.
+
+(* every pH-taking getter, for ANY backend: without a pH the backend's answer for None; with a rational pH an exception
+   exactly outside [0, 14], else the backend's answer for that pH *)
+Theorem ph_getter_none m r : lookup "pH" r = VNone -> String.eqb m "__verify_pH" = false -> is_bad (backend m [VNone]) = false ->
+  MiniPy.exec ph_prim 0 (fw_ph_shape m) r = ORet (backend m [VNone]).
+Proof.
+  intros Hp Hm Hb. unfold fw_ph_shape.
+  assert (T : truthy (MiniPy.eval ph_prim (ENe (EVar "pH") (EConst VNone)) r) = VBool false) by (cbn [MiniPy.eval]; rewrite Hp; reflexivity).
+  rewrite exec_seq, (exec_if_false _ _ _ _ T). change (MiniPy.exec ph_prim 0 SSkip r) with (ONorm r). cbv beta iota. apply exec_return_ok; [|exact Hb].
+  rewrite (eval_call1 _ _ _ VNone (eq_trans (eval_var _ _) Hp) eq_refl). unfold ph_prim. now rewrite Hm.
+Qed.
+Theorem ph_getter_value m (ph : Q) r : lookup "pH" r = VQ ph -> String.eqb m "__verify_pH" = false -> is_bad (backend m [VQ ph]) = false ->
+  MiniPy.exec ph_prim 0 (fw_ph_shape m) r = if Qltb ph 0 || Qltb 14 ph then ORaise else ORet (backend m [VQ ph]).
+Proof.
+  intros Hp Hm Hb. unfold fw_ph_shape.
+  assert (T : truthy (MiniPy.eval ph_prim (ENe (EVar "pH") (EConst VNone)) r) = VBool true) by (cbn [MiniPy.eval]; rewrite Hp; reflexivity).
+  rewrite exec_seq, (exec_if_true _ _ _ _ T).
+  assert (Ev : MiniPy.eval ph_prim (ECall "__verify_pH" [EVar "pH"]) r = if Qltb ph 0 || Qltb 14 ph then VExc else VNone).
+  { rewrite (eval_call1 _ _ _ (VQ ph) (eq_trans (eval_var _ _) Hp) eq_refl). unfold ph_prim. cbn [String.eqb Ascii.eqb Bool.eqb].
+    rewrite verify_pH_tie. destruct (Qltb ph 0 || Qltb 14 ph); reflexivity. }
+  destruct (Qltb ph 0 || Qltb 14 ph).
+  - change (MiniPy.exec ph_prim 0 (SAssign "$_" ?e) r) with (match MiniPy.eval ph_prim e r with VExc => ORaise | VErr => OErr | v => ONorm (set "$_" v r) end). now rewrite Ev.
+  - rewrite (exec_assign_ok _ _ _ _ Ev eq_refl). apply exec_return_ok; [|exact Hb].
+    rewrite (eval_call1 _ _ _ (VQ ph)); [| rewrite eval_var, lookup_set_neq by reflexivity; exact Hp | reflexivity]. unfold ph_prim. now rewrite Hm.
+Qed.
+End PHGetters.
+Print Assumptions ph_getter_value.
